@@ -69,6 +69,7 @@ package mux
 //@   ensures #nosyncerr result1 != ErrSync
 //@   modifies region($chanclosed), Q.closed, a.reqList.lmem, a.reqList.lcnt, list.Element.lrk, list.Element.Value
 //@   loop 1
+//@     invariant a.stopChan != nil && (!a.closed ==> !chanclosed(a.stopChan))
 //@     invariant wheld(a.lock) && a.reqList != nil && lwf(a.reqList) && sleepers(a.cond) >= 0 && woken(a.cond) >= 0 && (a.closed ==> sleepers(a.cond) == 0) && (sleepers(a.cond) > 0 ==> a.reqList.lcnt <= woken(a.cond) + 1)
 //@     invariant a.reqList.lcnt == cs(a.reqList.lcnt) && a.reqList.lmem == cs(a.reqList.lmem) && a.closed == cs(a.closed) && kept(a.reqList)
 //
@@ -81,6 +82,7 @@ package mux
 //@   ensures #nosyncerr result1 != ErrSync
 //@   modifies region($chanclosed), Q.closed, a.reqList.lmem, a.reqList.lcnt, list.Element.lrk, list.Element.Value
 //@   loop 1
+//@     invariant a.stopChan != nil && (!a.closed ==> !chanclosed(a.stopChan))
 //@     invariant wheld(a.lock) && a.reqList != nil && lwf(a.reqList) && sleepers(a.cond) >= 0 && woken(a.cond) >= 0 && (a.closed ==> sleepers(a.cond) == 0) && (sleepers(a.cond) > 0 ==> a.reqList.lcnt <= woken(a.cond) + 1)
 //@     invariant a.reqList.lcnt == cs(a.reqList.lcnt) && a.reqList.lmem == cs(a.reqList.lmem) && a.closed == cs(a.closed) && kept(a.reqList)
 //
